@@ -8,18 +8,53 @@ the theorems quantify over ALL such sequences.
 namespace C12
 open Tmo
 
+/-- an op sequence is valid when every `.cancel id` names a future that an earlier `.add` returned
+(`n` = number of futures created so far): Cancel can only be called on a future that Call returned.
+Without this `[.cancel 0]` outputs `undefined` (lookup of an unknown id). -/
+def validOps : Nat → List Op → Prop
+  | _, [] => True
+  | n, .add _ :: rest => validOps (n + 1) rest
+  | n, .cancel id :: rest => id < n ∧ validOps n rest
+  | n, _ :: rest => validOps n rest
+
+/-- from a heap satisfying the run invariant, a valid op sequence never outputs `undefined` -/
+private theorem run_no_undef {h : Heap} (I : h.Inv) (ops : List Op) :
+    validOps h.fut.length ops → Out.undefined ∉ (run h ops).2 := by
+  induction ops generalizing h with
+  | nil => intro _ c; simp [run_nil] at c
+  | cons op ops ih =>
+    intro v
+    have I' := step_inv I op
+    have fl := step_fut_length I op
+    rw [run_cons]
+    intro c
+    rcases List.mem_cons.1 c with c | c
+    · obtain ⟨id, rfl, hle⟩ := step_undef I op c.symm
+      have : id < h.fut.length := v.1
+      omega
+    · have v' : validOps (h.step op).1.fut.length ops := by
+        rw [fl]
+        cases op with
+        | add t => exact v
+        | cancel id => exact v.2
+        | popIfDue now => exact v
+        | rawPop => exact v
+      exact ih I' v' c
+
 /-- C12.idx_inv + heap_order: after any sequence of critical sections every future in the heap
 knows its own index, every future outside has idx = −1, ids are distinct, the array is a heap,
-and no container/heap loop ran out of fuel (no output is `undefined`). -/
+and (for valid sequences) no container/heap loop ran out of fuel (no output is `undefined`). -/
 theorem idx_inv (ops : List Op) :
-    (run Heap.new ops).1.IdxInv ∧ (run Heap.new ops).1.Ordered ∧ Out.undefined ∉ (run Heap.new ops).2 :=
-  sorry
+    (run Heap.new ops).1.IdxInv ∧ (run Heap.new ops).1.Ordered ∧
+      (validOps 0 ops → Out.undefined ∉ (run Heap.new ops).2) := by
+  have I := run_inv Heap.inv_new ops
+  exact ⟨I.1, I.2.1, run_no_undef Heap.inv_new ops⟩
 
 /-- the root is a minimum: a future is popped by the watcher only if nothing pending fires earlier -/
 theorem root_is_min (ops : List Op) :
     let h := (run Heap.new ops).1
     ∀ i, i < h.arr.length → h.fireAt 0 ≤ h.fireAt i :=
-  sorry
+  root_min (run_inv Heap.inv_new ops).2.1
 
 /-- C12.cancel_removes_exactly: Cancel removes exactly that future (if it is still pending) and
 nothing else: every other future keeps its membership, fire time and callback. Cancelling a
@@ -30,14 +65,14 @@ theorem cancel_removes_exactly (ops : List Op) (id : Nat) :
     (h'.pending.Perm (h.pending.filter (·.1 ≠ id))) ∧
     (∀ j, j ≠ id → (h'.get j).map (fun f => (f.fireT, f.hasF)) = (h.get j).map (fun f => (f.fireT, f.hasF))) ∧
     (id ∉ h.arr → h' = h) :=
-  sorry
+  cancel_exact (run_inv Heap.inv_new ops) id
 
 /-- add inserts exactly one new pending future and touches no other -/
 theorem add_inserts_exactly (ops : List Op) (t : Nat) :
     let h := (run Heap.new ops).1
     let r := h.step (.add t)
     r.2 = .id h.fut.length ∧ r.1.pending.Perm ((h.fut.length, t) :: h.pending) :=
-  sorry
+  add_exact (run_inv Heap.inv_new ops) t
 
 /-- C12.never_early: whenever the watcher section pops (= starts) a future at time `now`, that
 future's fire time is strictly before `now`, and it was the pending future with the least fire time. -/
@@ -47,7 +82,7 @@ theorem never_early (ops : List Op) (now : Nat) (id : Nat) (st : Bool) :
       (∃ f, h.get id = some f ∧ f.fireT < now ∧ f.hasF = true ∧ st = true ∧ id ∈ h.arr ∧
         ∀ p ∈ h.pending, f.fireT ≤ p.2) ∧
       id ∉ (h.step (.popIfDue now)).1.arr :=
-  sorry
+  never_early_h (run_inv Heap.inv_new ops) now id st
 
 /-- ids started (popped with a callback) in a run, in order -/
 def started : List Out → List Nat
@@ -55,16 +90,49 @@ def started : List Out → List Nat
   | .popped id true :: rest => id :: started rest
   | _ :: rest => started rest
 
+/-- started ids are among the popped ids, in order -/
+private theorem started_sublist : ∀ l : List Out, (started l).Sublist (l.filterMap Out.poppedId)
+  | [] => List.Sublist.slnil
+  | o :: rest => by
+    have ih := started_sublist rest
+    cases o with
+    | popped id st =>
+      cases st with
+      | true => simpa [started, Out.poppedId] using ih
+      | false =>
+        simp only [started, List.filterMap_cons, Out.poppedId]
+        exact List.Sublist.cons _ ih
+    | id n => exact ih
+    | ok => exact ih
+    | notDue => exact ih
+    | empty => exact ih
+    | undefined => exact ih
+
 /-- C12.at_most_once: no future is started twice, in any run. -/
 theorem at_most_once (ops : List Op) : (started (run Heap.new ops).2).Nodup :=
-  sorry
+  (started_sublist _).nodup (run_popped Heap.inv_new ops).1
 
 /-- C12.cancel_before_due_never_starts: once Cancel(id) has run while the future was pending, the
 future is never started by anything that follows. -/
 theorem cancel_before_due_never_starts (ops1 ops2 : List Op) (id : Nat)
     (hp : id ∈ (run Heap.new ops1).1.arr) :
-    id ∉ started ((run Heap.new (ops1 ++ [.cancel id] ++ ops2)).2.drop ops1.length) :=
-  sorry
+    id ∉ started ((run Heap.new (ops1 ++ [.cancel id] ++ ops2)).2.drop ops1.length) := by
+  have I1 := run_inv Heap.inv_new ops1
+  obtain ⟨h2, e, I2, p, d⟩ := cancel_in I1 hp
+  have nd : (id :: h2.arr).Nodup := p.nodup_iff.2 I1.1.2.2.1
+  have lt : id < h2.fut.length := by
+    rw [clearF_fut_length _ id d]; exact I1.1.2.2.2.1 id hp
+  rw [List.append_assoc, run_append]
+  have l := run_length Heap.new ops1
+  rw [← l, List.drop_left]
+  show id ∉ started (run (run Heap.new ops1).1 (Op.cancel id :: ops2)).2
+  rw [run_cons, e]
+  show id ∉ started (run h2 ops2).2
+  intro c
+  have c' := (started_sublist _).subset c
+  rcases (run_popped I2 ops2).2 id c' with x | x
+  · exact (List.nodup_cons.1 nd).1 x
+  · omega
 
 example : (run Heap.new [.add 5, .add 3, .add 9, .add 1, .cancel 1, .popIfDue 2, .popIfDue 4, .rawPop]).2 =
     [.id 0, .id 1, .id 2, .id 3, .ok, .popped 3 true, .notDue, .popped 0 true] := by decide
